@@ -1460,7 +1460,9 @@ func (c *Conn) executeQuery(ctx context.Context, qry *Query) *Iter {
 			}
 		}
 
-		params.skipMeta = !(c.session.cfg.DisableSkipMetadata || qry.disableSkipMetadata)
+		// protocol 1 can neither ask the server to skip the result metadata nor does its
+		// PREPARED response carry any, the rows must be read with the metadata they come with
+		params.skipMeta = c.version > protoVersion1 && !(c.session.cfg.DisableSkipMetadata || qry.disableSkipMetadata)
 
 		frame = &writeExecuteFrame{
 			preparedID:    info.id,
